@@ -4,7 +4,9 @@ import (
 	"bytes"
 	stdjson "encoding/json"
 	"fmt"
+	"math/rand"
 	"reflect"
+	"strings"
 
 	gojson "github.com/goccy/go-json"
 
@@ -148,6 +150,41 @@ func decErrClass(err error) string {
 	return "other"
 }
 
+// c04Padded: the same value behind a padding member, so that its encoding crosses the stream
+// decoder's refill boundaries (511, 1023 bytes) at a PRNG-chosen offset inside the value.
+func c04Padded(c *rt.Ctx, sub int, r *rand.Rand, t reflect.Type, v reflect.Value, feat string) {
+	var wt reflect.Type
+	if pan, _, _ := rt.Guard(func() {
+		wt = reflect.StructOf([]reflect.StructField{{Name: "P", Type: reflect.TypeOf(""), Tag: `json:"p"`}, {Name: "V", Type: t, Tag: `json:"v"`}})
+	}); pan {
+		return
+	}
+	wv := reflect.New(wt).Elem()
+	wv.Field(1).Set(v)
+	b0, err := stdjson.Marshal(wv.Interface())
+	if err != nil || len(b0) < 16 {
+		return
+	}
+	for i := 0; i < 12; i++ {
+		boundary := 511
+		if i%3 == 2 {
+			boundary = 1023
+		}
+		// the boundary falls o bytes before the end of the text
+		o := 1 + r.Intn(len(b0)-12)
+		pad := boundary - (len(b0) - o)
+		if pad < 0 {
+			continue
+		}
+		wv.Field(0).SetString(strings.Repeat("p", pad))
+		if !stdRoundTrips(wt, wv, c04Paths[0].stdenc) {
+			return
+		}
+		c04Case(c, sub, wt, wv, feat)
+		c.Obs("padded_roundtrips", 1)
+	}
+}
+
 func init() {
 	register(&Prop{
 		ID: "C04",
@@ -178,6 +215,9 @@ func init() {
 				}
 				heap0 := heapInUse()
 				c04Case(c, k, t, v, feat)
+				if k%8 == 7 {
+					c04Padded(c, k, rv, t, v, feat)
+				}
 				heapGuard(c, k, heap0, "roundtrip", "roundtrip", feat)
 				c.NonTrivial(t.String(), stdRender(v.Interface()))
 				c.SetAdd("kind_classes", kindClass(t))
